@@ -110,3 +110,11 @@ package surveyor
 //@
 //@ func (*context).SendMsg
 //@   ensures !isnil(result) ==> result == protocol.ErrClosed && m.Body == old(m.Body) && m.Header == old(m.Header) && same_elems(old(m.Body))
+// ---- generated wake-on-close contracts (from `govc sites -select`) ----
+//@ func (*context).RecvMsg
+//@   before select#1 assert selwaits(c.closeQ)
+//@
+//@ func (*pipe).sender
+//@   before select#1 assert selwaits(p.closeQ)
+//@
+// ---- end generated wake-on-close contracts ----
